@@ -36,5 +36,5 @@ def _recover(next_struct):
 _CORPUS = [_recover(None), _recover({"list": []}), _recover({"tuple": []}), _recover({"dict": []}),
            _recover({"tuple": [None, {"list": [None]}]})]
 
-mach.install(globals(), "C02", ("EvStep", "EvGot", "EvDone"), ("C02:",), PROFILES, n_quick=300, n_thorough=5000,
+mach.install(globals(), "C02", ("EvStep", "EvGot", "EvDone"), ("C02:",), PROFILES, n_quick=300, n_thorough=25000,
              nontrivial=_nontrivial, level="proof", corpus=_CORPUS)
